@@ -427,7 +427,9 @@ func (d Driver) Run(c *core.Ctx) error {
 		"glyph advances are inputs measured from the font (FontFace.TextWidth), cross-checked in C18",
 	}
 	// 1. model level
-	c.TLC(tlc.Opts{Module: "Layout", Config: gcfg("exh", c.Pick(2, 3), 0, 3, "{0, 2}", true), Coverage: c.Thorough()}, true)
+	// (no -coverage here: the module's only action is a stutter, and coverage instrumentation of the deeply recursive
+	// operators exhausts the heap)
+	c.TLC(tlc.Opts{Module: "Layout", Config: gcfg("exh", c.Pick(2, 3), 0, 3, "{0, 2}", true), Timeout: 30 * time.Minute}, true)
 
 	// 2. scenarios from TLC -> real layouts -> events
 	var mu sync.Mutex
@@ -517,7 +519,7 @@ func (d Driver) Run(c *core.Ctx) error {
 		run(tlc.Opts{Module: "Layout", Config: gcfg("exh", 4, 0, 5, "{0}", false), Timeout: 30 * time.Minute})
 	}
 	for nt := 4; nt <= 9; nt++ {
-		run(tlc.Opts{Module: "Layout", Config: gcfg("rand", nt, c.Pick(80, 600), maxw, "{0, 1}", false), Seed: c.Seed + int64(nt)})
+		run(tlc.Opts{Module: "Layout", Config: gcfg("rand", nt, c.Pick(80, 400), maxw, "{0, 1}", false), Seed: c.Seed + int64(nt)})
 	}
 	wg.Wait()
 	c.Count(n, nontrivial, 0)
